@@ -842,6 +842,8 @@ func lcRun(spec *lcSpec) *lcResult {
 		lcRunDry(e)
 	case "dryneg":
 		lcRunDryNeg(e)
+	case "dryk":
+		lcRunDryKind(e)
 	case "win":
 		lcRunWin(e)
 	case "dlk":
@@ -984,6 +986,25 @@ func lcRunDry(e *lcEnv) {
 		e.res.Counts = append(e.res.Counts, fmt.Sprintf("budget=%d", int64(c.tx)+c.partial))
 	}
 	e.settle()
+	e.plain(e.begin("p"), true)
+	e.finish(nil)
+	e.res.Scenario = ""
+}
+
+// dry run of one error kind: is the request transmitted again after it (the class of the kind for the model)?
+func lcRunDryKind(e *lcEnv) {
+	if !e.warm() || len(e.spec.faults) != 1 {
+		e.finish(nil)
+		return
+	}
+	f := e.spec.faults[0]
+	e.arm(f)
+	c := e.plainOpt(e.begin("p"), false, false)
+	if len(f.fired) > 0 {
+		e.res.Counts = append(e.res.Counts, fmt.Sprintf("retried=%c%s=%v", f.dir, f.kind, int64(c.tx)+c.partial >= 2))
+	}
+	e.settle()
+	e.disarm()
 	e.plain(e.begin("p"), true)
 	e.finish(nil)
 	e.res.Scenario = ""
@@ -1841,6 +1862,14 @@ func init() {
 	if v, err := strconv.Atoi(os.Getenv(lcChildEnv + "_BUDGET")); err == nil {
 		lcBudget = v
 	}
+	if v, ok := os.LookupEnv(lcChildEnv + "_RETRIED"); ok {
+		lcRetried = map[string]bool{}
+		for _, k := range strings.Split(v, ",") {
+			if k != "" {
+				lcRetried[k] = true
+			}
+		}
+	}
 	kmipclient.VerifYield = lcYieldEnv
 	in := bufio.NewScanner(os.Stdin)
 	in.Buffer(make([]byte, 1<<16), 1<<20)
@@ -2297,6 +2326,42 @@ func runLtsCli(ctx *Ctx) {
 		}
 		ctx.Res.Count(fmt.Sprintf("dry-run ops: reads %d->%d writes %d->%d; negotiation: %d reads %d writes; observed budget: %d transmissions", dry.r0, dry.r1, dry.w0, dry.w1, dry.nr, dry.nw, dry.budget))
 		lcChildExtraEnv = []string{fmt.Sprintf("%s_EXCH_NS=%d", lcChildEnv, exch), fmt.Sprintf("%s_BUDGET=%d", lcChildEnv, dry.budget)}
+		// the class (retried / not retried) of the error kinds that are neither an end of stream nor a closed connection
+		{
+			var kspecs []string
+			for _, dk := range lcObservedKinds {
+				f := &lcFault{dir: dk[0], conn: 0, kind: dk[1:]}
+				if f.dir == 'r' {
+					f.k, f.timing = dry.r0-1, "data"
+				} else {
+					f.k = dry.w0
+				}
+				kspecs = append(kspecs, (&lcSpec{fam: "dryk", pt: "-", srv: "-", next: "-", faults: []*lcFault{f}}).String())
+			}
+			var retried, seen []string
+			for _, r := range lcRunChild(ctx, kspecs) {
+				if r.Fail != "" {
+					ctx.Res.Fail("lts.cli " + r.Spec + ": " + r.Fail)
+				}
+				for _, v := range r.Viol {
+					ctx.Res.Violate(report.Violation{Property: v.Property, Oracle: v.Oracle, Key: v.Key, Detail: v.Detail, Line: "# lts.cli " + r.Spec})
+				}
+				for _, c := range r.Counts {
+					if strings.HasPrefix(c, "retried=") {
+						kv := strings.Split(strings.TrimPrefix(c, "retried="), "=")
+						seen = append(seen, kv[0])
+						if len(kv) == 2 && kv[1] == "true" {
+							retried = append(retried, kv[0])
+						}
+					}
+				}
+			}
+			if len(seen) != len(lcObservedKinds) {
+				ctx.Res.Fail(fmt.Sprintf("lts.cli: the dry runs observed the retry class of %v only (wanted %v)", seen, lcObservedKinds))
+			}
+			ctx.Res.Count("dry-run retry classes: retried after [" + strings.Join(retried, " ") + "] of [" + strings.Join(lcObservedKinds, " ") + "]")
+			lcChildExtraEnv = append(lcChildExtraEnv, fmt.Sprintf("%s_RETRIED=%s", lcChildEnv, strings.Join(retried, ",")))
+		}
 		// the budget the model has must be the one the code has
 		ctx.Add("lts.budget cliconn current", fmt.Sprintf("ok %d", dry.budget), true, "C11")
 		// the fusion of no-op steps in the model is checked by evaluation: the unfused system is explored, the
